@@ -40,6 +40,8 @@ func caseEdges(fn *ssa.Function, tag eng.VM, k *types.Const) []eng.Edge {
 }
 
 func runC10(c *eng.Ctx) {
+	c.Rule("R03.12", "K5")
+	ruleReadAtAnswersFromTheFile(c)
 	p := c.P
 	var apiTypes *types.Package
 	for _, sp := range p.SSA.AllPackages() {
